@@ -338,7 +338,7 @@ class Session:
         self.flags.add('fault:' + kind)
         self.steps.append('fault:' + kind)
 
-    def drain_events(self, limit=20):
+    def drain_events(self, limit=400):
         """poll ConnectionEvents::next until pending / closed"""
         I = self.I
         if self.ev_rx is None or self.events_done:
